@@ -51,6 +51,37 @@ def _c20_siblings(plan, violation, entry):
     return violation.get("oracle") in entry.get("oracles", []) and bool(d.get("sibling_trigger"))
 
 
+@trigger("c07_falsy_operand")
+def _c07_falsy(plan, violation, entry):
+    """The stream holds an object with a falsy value in a field that a condition of the query reads."""
+    if violation.get("oracle") not in entry.get("oracles", []):
+        return False
+    fields = set()
+
+    def walk(t):
+        if isinstance(t, list):
+            if len(t) == 3 and t[0] == "attr" and isinstance(t[2], str):
+                fields.add(t[2])
+            if len(t) >= 3 and t[0] == "call":
+                fields.update(("a", "b"))
+            if t and t[0] in ("fp", "cp"):
+                fields.update(("a", "b", "tags"))
+            for x in t:
+                walk(x)
+    for q in plan["pool"]["queries"]:
+        walk(q.get("conds", []))
+    for v in plan["pool"]["vars"]:
+        fields.update((v.get("kw") or {}).keys())
+    labels = set(plan["world"]["domains"].get("d0", []))
+    for o in plan["world"]["objects"]:
+        if o["l"] in labels:
+            for f in fields:
+                val = o["f"].get(f)
+                if val in (0, None) or (isinstance(val, list) and any(x in (0, None) for x in val)):
+                    return True
+    return False
+
+
 def classify(prop_id: str, plan: dict, violation: dict) -> Optional[dict]:
     """Return the open finding whose trigger matches this minimised failing plan, if any."""
     for entry in load().get("open", []):
